@@ -12,6 +12,7 @@ Record scase := SC {
   j_trace : list (Z * Z);            (* implementation: (tid, site) per step *)
   j_results : list (list (Z * Z));   (* per thread, oldest first: (1,b) alloc, (2,b) dealloc, (3,v) bytes, (4,b) block obtained by a refill *)
   j_lock : Z; j_slabs : Z;
+  j_consts : Z * Z * Z;              (* kIdealNumTLBuffers, kBuffersPerMalloc, kMallocBytes of the real class *)
   j_maxocc : Z;                      (* counted by the harness at its own wrapper of the hook points *)
   j_bad : Z;                         (* alloc results failing the harness's alignment / in-slab / ownership-map checks *)
   j_events : list (Z * Z);           (* global order of (1,b) alloc / (2,b) dealloc *)
@@ -29,7 +30,12 @@ Fixpoint own_ok (ev : list (Z * Z)) (live : list Z) : bool :=
 Definition excl_ok (c : scase) : bool := own_ok (j_events c) [] && (j_bad c =? 0).
 Definition occ_ok (c : scase) : bool := j_maxocc c <=? 1.
 
+Definition consts_agree (c : scase) : bool :=
+  let k := cfg_of_chunk (k_chunk c) in
+  let '(i, p, m) := j_consts c in (ideal k =? i) && (pm k =? p) && (mbytes k =? m).
+
 Definition agrees (c : scase) : bool :=
+  consts_agree c &&
   let '(s, tr, st) := run_sb (list Z) lq_enq oq_deq (cfg_of_chunk (k_chunk c)) (k_fuel c) [] (k_progs c) (k_sched c) in
   list_eqb zpair_eqb tr (j_trace c) && (status_code st =? j_status c) && (lock s =? j_lock c) &&
   (Z.of_nat (length (backing s)) =? j_slabs c) && (maxocc s =? j_maxocc c) &&
